@@ -62,7 +62,12 @@ def main():
     root = "/tmp/verif_seed_%s" % label
     shutil.rmtree(root, ignore_errors=True)
     shutil.copytree("/repo/src", os.path.join(root, "src"))
-    rc, o = sh("patch -p1 --no-backup-if-mismatch < %s" % os.path.join(out, "patch.diff"), cwd=root)
+    # patch_current.diff: the same change re-expressed on the current /repo when a later fix touched the same lines
+    pf = os.path.join(out, "patch_current.diff")
+    if not os.path.exists(pf):
+        pf = os.path.join(out, "patch.diff")
+    res["patch_used"] = os.path.basename(pf)
+    rc, o = sh("patch -p1 --no-backup-if-mismatch < %s" % pf, cwd=root)
     res["applies_to_current_repo"] = (rc == 0)
     if rc != 0:
         print("patch does not apply to current /repo/src:\n" + o[-800:])
